@@ -1026,6 +1026,9 @@ class Flow(NLRI):
             # TODO: verify if this is correct - why reset the afi of the NLRI object after initialisation?
             if rule.NAME.endswith('ipv6'):
                 self._afi = AFI.ipv6
+        elif isinstance(rule, FlowIPv6) and not isinstance(rule, FlowIPv4):
+            # next-header, traffic-class and flow-label only exist in RFC 8956: the rule is an IPv6 one
+            self._afi = AFI.ipv6
         self.rules.setdefault(ID, []).append(rule)
         self._packed_stale = True  # Mark packed as stale after modification
         return True
